@@ -224,6 +224,14 @@ class C09(PropBase):
                                                          "vw0.VwPage[vw0.VwSame]", "list[typing.Iterator[vw0.VwSame]]", "dict[str, vw0.VwPage[int]]", "vw0.VwFeed",
                                                          "collections.abc.KeysView[str]", "typing.Generator[int, None, None]", "vw0.VwPrivTree", "list[vw0.VwPrivTree]", "vw0.VwPrivPlain", "vw0.VwPrivTree",
                                                          "vw0.VwNestNS.VwNode", "vw0.VwNestNS.VwDeep.VwItem", "vw0.VwNestNS.VwNode"])})
+        if len(world["modules"]) >= 2 and rng.random() < 0.35:
+            # a member inherited from a base class in another module, written as text there: it means what the
+            # base's module means by it (both modules have a VwSame of their own)
+            m0n, m1n = world["modules"][0]["name"], world["modules"][1]["name"]
+            world["modules"][0]["decls"].append({"d": "raw", "n": "VwBaseS", "src": (
+                "@dataclasses.dataclass\nclass VwBaseS:\n    kid: 'typing.Optional[VwSame]' = None\n    kids: 'list[VwSame]' = dataclasses.field(default_factory=list)\n")})
+            world["modules"][1]["decls"].append({"d": "raw", "n": "VwDerS", "src": f"@dataclasses.dataclass\nclass VwDerS({m0n}.VwBaseS):\n    extra: int = 0\n"})
+            roots.append({"k": "raw", "src": rng.choice([f"{m1n}.VwDerS", f"list[{m1n}.VwDerS]"])})
         # (two member orders of one member set in one process is the union-order alias that C08/C12 record;
         # this check is about the shape of the graph, not about which equal union was built first)
         gen.one_order_per_member_set(world, roots)
